@@ -6,26 +6,26 @@
 /// Check for `cover`: "accepted"
 
 #[test]
-fn kani_concrete_playback_c10_time_windows_rule_n3_532893188578593645() {
+fn kani_concrete_playback_c10_time_windows_rule_n3_16848828527317719651() {
     let concrete_vals: Vec<Vec<u8>> = vec![
         // 1
         vec![1],
-        // 0
-        vec![0, 0],
-        // -318
-        vec![194, 254],
+        // -1
+        vec![255, 255],
+        // -1
+        vec![255, 255],
         // 1
         vec![1],
-        // -16384
-        vec![0, 192],
-        // -2
-        vec![254, 255],
+        // -16385
+        vec![255, 191],
+        // -1
+        vec![255, 255],
         // 1
         vec![1],
-        // -2
-        vec![254, 255],
-        // 2
-        vec![2, 0],
+        // -24577
+        vec![255, 159],
+        // -1
+        vec![255, 255],
         // 1
         vec![1],
     ];
@@ -59,6 +59,37 @@ fn kani_concrete_playback_c10_time_windows_rule_n3_678035333410654009() {
         vec![0, 128],
         // 0
         vec![0],
+    ];
+    kani::concrete_playback_run(concrete_vals, c10_time_windows_rule_n3);
+}
+
+/// Test generated for harness `validation::common::verif_kani_proofs::c10_time_windows_rule_n3` 
+///
+/// Check for `assertion`: "assertion failed: accepted == expected"
+
+#[test]
+fn kani_concrete_playback_c10_time_windows_rule_n3_4725838397568498151() {
+    let concrete_vals: Vec<Vec<u8>> = vec![
+        // 1
+        vec![1],
+        // -2
+        vec![254, 255],
+        // 2
+        vec![2, 0],
+        // 1
+        vec![1],
+        // -7680
+        vec![0, 226],
+        // 0
+        vec![0, 0],
+        // 1
+        vec![1],
+        // -2
+        vec![254, 255],
+        // -32768
+        vec![0, 128],
+        // 1
+        vec![1],
     ];
     kani::concrete_playback_run(concrete_vals, c10_time_windows_rule_n3);
 }
